@@ -24,7 +24,7 @@ func TestMain(m *testing.M) {
 
 var bias = ls.Bias{
 	Weights:   map[ls.OpKind]int{ls.OpPush: 6, ls.OpSpawnPush: 7, ls.OpOpen: 2, ls.OpSettle: 4, ls.OpAdvance: 2, ls.OpStatus: 1, ls.OpFreeze: 4, ls.OpThaw: 1, ls.OpCancel: 4},
-	TaskKinds: []ls.TaskKind{ls.TInstant, ls.TInstant, ls.TGated, ls.TGated, ls.TSleep, ls.TPanic},
+	TaskKinds: []ls.TaskKind{ls.TInstant, ls.TInstant, ls.TInstant, ls.TGated, ls.TGated, ls.TSleep, ls.TSleep, ls.TPanic, ls.TCancel},
 	Deadline:  25,
 	MaxOps:    40,
 	Cancel:    true,
